@@ -6,6 +6,8 @@ import (
 
 	"github.com/Fantom-foundation/lachesis-base/hash"
 	"github.com/Fantom-foundation/lachesis-base/inter/dag"
+	"github.com/Fantom-foundation/lachesis-base/inter/idx"
+	"github.com/Fantom-foundation/lachesis-base/inter/pos"
 	"github.com/Fantom-foundation/lachesis-base/kvdb"
 	"github.com/Fantom-foundation/lachesis-base/kvdb/memorydb"
 	"github.com/Fantom-foundation/lachesis-base/vecfc"
@@ -153,4 +155,53 @@ func (x *Index) AddS(t *rapid.T, s *Session, i int, last bool) (replaced bool, e
 		return true, nil
 	}
 	return false, nil
+}
+
+// NewAfterOtherEpoch is New for an index object that has served another epoch before: the same object first
+// indexes a small DAG of another validator group (1-6 validators - so mostly a group of another size - with an
+// optional fork, flushed and reloaded the way the consensus layer does) over its own database and is then Reset
+// to the reference's group over a fresh database, as happens at every epoch change of a running node.
+func NewAfterOtherEpoch(t *rapid.T, ref *graphref.Ref, cfg vecfc.IndexConfig) *Index {
+	k := rapid.IntRange(1, 6).Draw(t, "earlierEpochValidators")
+	ids := make([]idx.ValidatorID, k)
+	ws := make([]pos.Weight, k)
+	for i := range ids {
+		ids[i] = idx.ValidatorID(100 + i)
+		ws[i] = pos.Weight(rapid.Uint32Range(1, 3).Draw(t, "earlierEpochWeight"))
+	}
+	rounds := rapid.IntRange(1, 3).Draw(t, "earlierEpochRounds")
+	old := graphref.New(ref.Epoch+1000, ids, ws, k*rounds+4)
+	for r := 0; r < rounds; r++ {
+		for v := 0; v < k; v++ {
+			sp := -1
+			if own := old.ByCreat[v]; len(own) > 0 {
+				sp = own[len(own)-1]
+			}
+			var others []int
+			for u := 0; u < k; u++ {
+				if u != v && len(old.ByCreat[u]) > 0 {
+					others = append(others, old.ByCreat[u][len(old.ByCreat[u])-1])
+				}
+			}
+			e := old.Prepare(graphref.Proto{Creator: v, SelfParent: sp, Others: others, Salt: uint32(r)})
+			_, hi := old.Allowed(e)
+			old.Commit(e, hi)
+		}
+	}
+	if own := old.ByCreat[0]; len(own) >= 2 && rapid.Bool().Draw(t, "earlierEpochFork") {
+		e := old.Prepare(graphref.Proto{Creator: 0, SelfParent: own[0], Salt: 77})
+		_, hi := old.Allowed(e)
+		old.Commit(e, hi)
+	}
+	x := New(old, cfg)
+	for i := range old.Evs {
+		if err := x.Add(i); err != nil {
+			t.Fatalf("earlier epoch: Add(e%d): %v", i, err)
+		}
+		if rapid.Bool().Draw(t, "earlierEpochDrop") {
+			x.Idx.DropNotFlushed()
+		}
+	}
+	x.ResetWith(ref)
+	return x
 }
